@@ -940,7 +940,7 @@ META = {
                  'sum algebra, ravel/unravel index arithmetic) + exact integer correspondence of every operator class with '
                  'the implementation evaluated by vm_compute + dense-definition oracle on the implementation + exact residual '
                  'bounds for the solver factories',
-    'level_text': 'Theorems (Coq, unbounded, any commutative ring; 30 theorems, all closed under the global context): apply_tprod '
+    'level_text': 'Theorems (Coq, unbounded, any commutative ring; 37 theorems, all closed under the global context; in addition to the list below: grid_block_transpose_full, kron_reduce_spec (left-nested reduce(np.kron) = kron_ent), lap_code_spec, diag_code_spec, fastdiag_inverts_multi, fastdiag_inverts_code[_multi] about the expressions the code builds): apply_tprod '
                   'computes Y[a,t] = sum_J prod_k B_k[a_k,j_k] X[J,t] for any number of operands, dense (tensordot) and '
                   'sparse/LinearOperator (_modek_tensordot_sparse) branches, rectangular shapes, None placeholders, trailing axes '
                   '(apply_tprod_spec, modek_sparse_spec, kron_core_spec); _apply_kronecker_dense equals the flat np.kron matrix times x '
